@@ -472,11 +472,15 @@ type fsConn struct {
 	remote    net.Addr
 	local     net.Addr
 	afterW    func()
+	beforeR   func() // called at the start of every Read
 	failWrite bool
 	writes    int
 }
 
 func (c *fsConn) Read(p []byte) (int, error) {
+	if c.beforeR != nil {
+		c.beforeR()
+	}
 	if len(c.in) == 0 {
 		return 0, io.EOF
 	}
@@ -657,7 +661,7 @@ func fsClientErrClass(err error, wrote bool) string {
 	case strings.HasPrefix(m, "FS authentication failed: client and server"):
 		return "rejected"
 	}
-	return "other:" + strings.ReplaceAll(m, " ", "_")
+	return "other" // unknown text: a class only, never the text
 }
 
 // runFsClient drives the real client; returns the op, the real reply line, and oracle findings.
@@ -760,17 +764,34 @@ func runFsClientOnce(c *Ctx, g *fsGen, cs fsClientCase) (op, real string, bad []
 	}
 	st := stream.NewStream(conn)
 	var err error
+	cctx := bg
+	srvTok := cs.srv
+	if cs.srv == "c" {
+		// the caller's context is cancelled once the client has handed over its result code: no
+		// verdict is ever read. For the model this is the continuation "receiving the verdict fails";
+		// what the client created must be removed all the same.
+		var ccancel context.CancelFunc
+		cctx, ccancel = context.WithCancel(bg)
+		defer ccancel()
+		conn.beforeR = func() {
+			// the result code is on the wire and the client has come back to read the verdict
+			if _, ok := fsFirstMessage(conn.out); ok {
+				ccancel()
+			}
+		}
+		srvTok = "f"
+	}
 	func() {
 		defer func() {
 			if r := recover(); r != nil {
 				err = fmt.Errorf("PANIC: %v", r)
 			}
 		}()
-		err = security.VerifFSAuthClient(bg, st, cs.remote)
+		err = security.VerifFSAuthClient(cctx, st, cs.remote)
 	}()
 	after := w.snap()
 
-	op = fmt.Sprintf("client %s %s %s %s %s %s", b01(cs.remote), fsPeerTok(cs.peer), b01(mkdirOK), b01(cs.send), cs.srv, msgTok)
+	op = fmt.Sprintf("client %s %s %s %s %s %s", b01(cs.remote), fsPeerTok(cs.peer), b01(mkdirOK), b01(cs.send), srvTok, msgTok)
 	ops := []string{op, "# path=" + strconv.Quote(cs.path)}
 
 	// what the client put on the wire
@@ -1217,6 +1238,13 @@ func fsWorkDir(c *Ctx) string {
 func runFsPath(c *Ctx) (err error) {
 	c.Res.Rule = "server-supplied paths from a component grammar (base dir, other/nested/symlinked parents, '..', '.', empty and doubled slashes, relative forms, recognised and near-miss leaf names, IPv4/IPv6/hostname address fields spelled several ways, ports equal / near / unrelated to the connection's, over-long fields, control and non-ASCII bytes) plus 1–2 byte-level mutations of accepted paths, junk, and every path of up to 4 (thorough 5) components over a small component alphabet, for FS and FS_REMOTE and 14 kinds of connection address; fed (a) to validateFSAuthPath, fsAddrLeaf, verifyFSPathEndpoint through hooks and (b) through the whole client exchange against a scripted server (well-formed, split, NUL-less, trailing-data and broken path messages; every verdict message; failing send; object already present) with filesystem snapshots before / at reply time / after; server side: every kind of object a client might leave (25 kinds) x client replies; each observable compared with the Lean model and judged by a reference recogniser written from the statement; distinct by op line; non-trivial = path accepted, or rejected for a reason other than emptiness"
 	// runs started from the same checkout use the same /tmp names for the same seed: one at a time
+	// ... and runs from DIFFERENT checkouts share the base directory too: a second lock next to it
+	if lk, e := os.OpenFile(filepath.Join(os.TempDir(), ".cedar-verif-fspath.lock"), os.O_CREATE|os.O_RDWR, 0o666); e == nil {
+		if syscall.Flock(int(lk.Fd()), syscall.LOCK_EX) == nil {
+			defer syscall.Flock(int(lk.Fd()), syscall.LOCK_UN)
+		}
+		defer lk.Close()
+	}
 	if lk, e := os.OpenFile(filepath.Join(fsWorkDir(c), "fspath.lock"), os.O_CREATE|os.O_RDWR, 0o644); e == nil {
 		if syscall.Flock(int(lk.Fd()), syscall.LOCK_EX) == nil {
 			defer syscall.Flock(int(lk.Fd()), syscall.LOCK_UN)
@@ -1255,7 +1283,50 @@ func runFsPath(c *Ctx) (err error) {
 	// ---- consts ----
 	{
 		base, max, lre, rre, sre := security.VerifFSAuthConsts()
-		one("consts", "consts", fmt.Sprintf("ok base=%s max=%d local=%s remote=%s suffix=%s", fsHex(base), max, fsHex(lre), fsHex(rre), fsHex(sre)))
+		one("consts", "consts", fmt.Sprintf("ok base=%s max=%d", fsHex(base), max))
+		// the three leaf-name expressions are compared by BEHAVIOUR (an equivalent re-spelling of a
+		// pattern is not a change): the library's sources, compiled, against the reference
+		// expressions written from the statement, on leaf names of every shape and their mutations
+		refSuffix := regexp.MustCompile(`\A[A-Za-z0-9]{1,16}\z`)
+		for _, pr := range []struct {
+			name string
+			src  string
+			ref  *regexp.Regexp
+		}{{"local", lre, fsRefLocal}, {"remote", rre, fsRefRemote}, {"suffix", sre, refSuffix}} {
+			lib, e := regexp.Compile(pr.src)
+			if e != nil {
+				fsViolate(c, Violation{Property: "C18", Key: "C18:leaf-expression-unusable:" + pr.name, What: "the library's leaf-name expression does not compile", Ops: []string{"consts"}, Expected: "a regular expression", Observed: "compile error"})
+				continue
+			}
+			for i, n := 0, c.Pick(3000, 30000); i < n; i++ {
+				var leaf string
+				switch g.n(5) {
+				case 0:
+					leaf, _ = g.goodLeaf(g.n(2) == 0, g.peer())
+				case 1:
+					leaf, _ = g.addrLeaf(g.n(2) == 0, g.peer())
+				case 2:
+					leaf, _ = g.nearMissLeaf(g.n(2) == 0)
+				case 3:
+					leaf = g.suffix()
+				default:
+					leaf, _ = g.goodLeaf(g.n(2) == 0, g.peer())
+					leaf = g.mutate(leaf)
+				}
+				if g.n(4) == 0 {
+					leaf = g.mutate(leaf)
+				}
+				if g.n(12) == 0 {
+					leaf += "\n" // `$` without \z would let a trailing newline through
+				}
+				if lib.MatchString(leaf) != pr.ref.MatchString(leaf) {
+					fsViolate(c, Violation{Property: "C18", Key: "C18:leaf-shape-differs:" + pr.name, What: "the library's leaf-name expression and the recognised shape of the statement disagree on a name",
+						Ops: []string{"# leaf " + strconv.Quote(leaf)}, Expected: fmt.Sprintf("match=%v", pr.ref.MatchString(leaf)), Observed: fmt.Sprintf("match=%v", lib.MatchString(leaf))})
+					break
+				}
+			}
+			c.Count("consts:leaf-expression-behaviour:" + pr.name)
+		}
 		if base != fsBase {
 			fsViolate(c, Violation{Property: "C18", Key: "C18:base-dir-changed", What: "the base directory is not the fixed temporary directory the property names", Ops: []string{"consts"}, Expected: fsBase, Observed: base})
 		}
@@ -1441,7 +1512,7 @@ func runFsPath(c *Ctx) (err error) {
 		case 0:
 			cs.srv = g.pick("r:-1", "r:1", "r:7", "r:-9223372036854775808")
 		case 1:
-			cs.srv = g.pick("x", "f")
+			cs.srv = g.pick("x", "f", "c")
 		}
 		switch k := g.n(40); {
 		case k == 0:
@@ -1499,6 +1570,13 @@ func runFsPath(c *Ctx) (err error) {
 		}
 	}
 
+	// ---- clean-up that cannot succeed: a foreign object appears inside the directory the client made ----
+	for i, n := 0, c.Pick(6, 40); i < n; i++ {
+		for _, v := range fsCleanupForeign(c, g, g.n(2) == 0) {
+			fsViolate(c, v)
+		}
+	}
+
 	// ---- whole server exchange ----
 	for rep, nrep := 0, c.Pick(2, 20); rep < nrep; rep++ {
 		for _, kind := range fsServerKinds {
@@ -1527,6 +1605,16 @@ func runFsPath(c *Ctx) (err error) {
 		}
 	}
 
+	if n := c.Res.Distribution["server:skipped-needs-root"]; n > 0 {
+		c.Res.Notes = append(c.Res.Notes, fmt.Sprintf("PARTIAL for the clause \"recording its owner as the identity\": this process is not root, so %d server cases with a directory owned by ANOTHER uid (known, unknown, wrong mode) were not run; the owner was only ever the current user, for whom owner lookup and current-user lookup coincide", n))
+		c.Count("clause-partial:server-identity-of-foreign-owner-not-exercised")
+	} else if c.Res.Distribution["server-object:dir-uid1"] == 0 {
+		c.Res.Notes = append(c.Res.Notes, "no server case with a foreign-owned directory ran although the process is root")
+		c.Count("clause-partial:server-identity-of-foreign-owner-not-exercised")
+	} else {
+		c.Count("server:foreign-owner-cases-ran")
+	}
+
 	// ---- honest exchanges over TCP loopback ----
 	for _, nw := range [][2]string{{"tcp4", "127.0.0.1:0"}, {"tcp6", "[::1]:0"}} {
 		for _, remote := range []bool{false, true} {
@@ -1546,4 +1634,64 @@ func runFsPath(c *Ctx) (err error) {
 		c.Res.Notes = append(c.Res.Notes, "observation (outside the property's quantifier, which ranges over path strings with a working transport): when the client cannot send its result code the directory it created is not removed (the clean-up is registered after the send); the model has the same behaviour (Env.sendOk = false)")
 	}
 	return diffBatch(c, "fspath", cases, nil)
+}
+
+// fsCleanupForeign: an accepted path, the client creates its directory and reports success; before the
+// verdict arrives another local process drops a file INTO that directory. The client's clean-up can
+// then only fail (rmdir of a non-empty directory): it must fail cleanly — the exchange still ends with
+// its ordinary result, nothing panics, and the foreign object is not destroyed (removing "whatever
+// the client created" never extends to what others put there). Implementation observables only.
+func fsCleanupForeign(c *Ctx, g *fsGen, remote bool) (bad []Violation) {
+	peer := g.peer()
+	var leaf, target string
+	for try := 0; try < 5; try++ {
+		leaf, _ = g.goodLeaf(remote, peer)
+		target = fsBase + "/" + leaf
+		if _, err := os.Lstat(target); err != nil {
+			break
+		}
+	}
+	intruder := filepath.Join(target, "left-by-someone-else")
+	conn := &fsConn{remote: peer}
+	conn.in = append(fsFrame(1, append([]byte(target), 0)), fsFrame(1, fsIntBody(0))...)
+	planted := false
+	conn.afterW = func() {
+		if planted {
+			return
+		}
+		if _, ok := fsFirstMessage(conn.out); ok {
+			if fi, err := os.Lstat(target); err == nil && fi.IsDir() {
+				planted = os.WriteFile(intruder, []byte("x"), 0o600) == nil
+			}
+		}
+	}
+	st := stream.NewStream(conn)
+	var err error
+	func() {
+		defer func() {
+			if r := recover(); r != nil {
+				err = fmt.Errorf("PANIC: %v", r)
+			}
+		}()
+		err = security.VerifFSAuthClient(bg, st, remote)
+	}()
+	ops := []string{fmt.Sprintf("# client exchange remote=%v path=%s verdict 0; at reply time a file is created inside the client's directory", remote, strconv.Quote(target))}
+	c.Count("client:cleanup-with-foreign-object-inside")
+	c.Res.Evaluations++
+	if err != nil && strings.HasPrefix(err.Error(), "PANIC") {
+		bad = append(bad, Violation{Property: "C18", Key: "C18:client-panic", What: "the client panicked when its clean-up could not succeed", Ops: ops, Expected: "clean return", Observed: "panic"})
+	}
+	if planted {
+		if _, e := os.Lstat(intruder); e != nil {
+			bad = append(bad, Violation{Property: "C18", Key: "C18:foreign-object-touched", What: "the client's clean-up destroyed an object it did not create (a file another process put into the directory)", Ops: ops, Expected: "the foreign file is left alone (the directory stays, non-empty)", Observed: "file gone"})
+		}
+		if err != nil && !strings.HasPrefix(err.Error(), "PANIC") {
+			bad = append(bad, Violation{Property: "C18", Key: "C18:cleanup-failure-changes-result", What: "a clean-up that cannot succeed changed the outcome of an otherwise successful exchange", Ops: ops, Expected: "success (verdict 0 was received)", Observed: "error class " + fsClientErrClass(err, true)})
+		}
+	} else {
+		c.Count("client:cleanup-foreign-object-not-planted")
+	}
+	_ = os.Remove(intruder)
+	_ = os.Remove(target)
+	return bad
 }
